@@ -61,7 +61,15 @@ def make_stream(kind, data, rnd=None, faults=None, seg=None, bufsize=4096):
     if kind == "buffered":
         return io.BufferedReader(io.BytesIO(data), buffer_size=rnd.choice([1, 16, 4096]) if rnd else 16), True
     if kind == "socket":
-        return sockdouble.ScriptedSocket(data, seg or []), False
+        # public API only: the wrapper is built explicitly and the recording proxy sits between the
+        # reader and the wrapper (the reader's own isinstance(socket) wrapping is exercised, without
+        # recording, by the direct comparisons in C02 / C11)
+        from pyrtcm.socketwrapper import SocketWrapper
+
+        sock = sockdouble.ScriptedSocket(data, seg or [])
+        w = SocketWrapper(sock, bufsize=bufsize)
+        w._verif_sock = sock  # keep a handle for closing (attribute on OUR object graph only)
+        return w, True
     raise ValueError(kind)
 
 
@@ -81,7 +89,7 @@ class Traces:
                                             labelmsm=labelmsm, wrap=wrap, use_iter=use_iter, max_calls=len(data) + 50, hraise=hraise)
         finally:
             if kind == "socket":
-                stream.close()
+                stream._verif_sock.close()
         self.traces.append({"tid": tid, "validate": int(validate), "parsed": bool(parsed), "quit": int(quit), "hraise": bool(hraise), "ev": ev})
         meta.update(kind=kind, validate=validate, parsed=parsed, quit=quit, handler=handler, data=data, faults=faults, seg=seg)
         self.meta[tid] = meta
